@@ -29,6 +29,8 @@ def call_arity(repo):
             if is_self_attr(c.func) and cls is not None:
                 callee = repo.resolve_method(cls, c.func.attr)
                 skip_self = True
+                if callee is not None and any(dotted(d) == "staticmethod" for d in callee.node.decorator_list):
+                    skip_self = False        # a static method called through the instance receives no self
                 # instance attributes that shadow methods (registered evaluators) are not methods
                 if callee is None:
                     continue
